@@ -310,6 +310,10 @@ DOC_TEXTS = ['x', 'two words', "it's", 'say "hi"', 'back\\slash', 'tab\there', '
              "Use '''x''' for raw text, not \"x\"", 'ends with two ""', "ends with two ''", '\x00nul', '\\n literal']
 
 
+CONSTANT_VALUES = [0, 7, 10 ** 30, 1.5, 1e22, 2.5e-320, float('inf'), float('nan'), -0.0, 2j, complex(1, 2), complex(0, float('inf')),
+                   complex(0.0, -0.0), 'text', "it's \"q\"", 'a\nb', '', b'by\x00tes', True, False, None, ...]
+
+
 def accessor_steps(sw, root, quick, rnd):
     for path, f in node_paths(root):
         a = f.a
@@ -334,8 +338,36 @@ def accessor_steps(sw, root, quick, rnd):
                     sw.fail('C08', key + ':c01', f'after put_docstr({t!r}): {v}')
                     sw.fail('C01', key + ':c01', f'after put_docstr({t!r}): {v}')
                 sw.post_edit(r, key, f'put_docstr({t!r})', v)
+        if isinstance(a, ast.Constant) and not under_fstring(root.a, path) and (not quick or rnd.random() < 0.2):
+            # primitive values written through the accessor: "AST values always equal what the new source text denotes"
+            for val in CONSTANT_VALUES:
+                r = sw.fresh()
+                n = follow(r, path)
+                if not n:
+                    continue
+                sw.ev += 1
+                key = f'constant_value@{slot_desc(root.a, path)}:{sw.name}:{path}:{val!r}'
+                src0, d0 = r.src, dump(r.a)
+                sw.pre_edit(r)
+                try:
+                    n.value = val
+                except Exception as e:
+                    sw.distinct.add(('const-refused', path, repr(val)))
+                    if r.src != src0 or dump(r.a) != d0:
+                        sw.fail('C08', key + ':refused_changed', f'Constant.value = {val!r} raised {e!r} and changed the tree')
+                    continue
+                sw.distinct.add(('const', path, repr(val)))
+                v = c01_violation(r)
+                if v:
+                    sw.fail('C08', key + ':denotes', f'after Constant.value = {val!r} the source {r.src[:60]!r}... does not denote '
+                            f'the tree: {v}')
+                    continue
+                n2 = follow(r, path)
+                got = getattr(n2.a, 'value', None) if n2 else None
+                if not (type(got) is type(val) and (got == val or repr(got) == repr(val).replace('-0', '0'))):
+                    sw.fail('C08', key + ':readback', f'Constant.value = {val!r} reads back as {got!r}')
         if isinstance(a, ast.stmt) and not isinstance(a, (ast.FunctionDef, ast.AsyncFunctionDef, ast.ClassDef)):
-            for t in ['c', 'two words', 'é # x', 'longer than the one before it was']:
+            for t in ['c', 'two words', 'é # x', 'longer than the one before it was', 'trailing blanks  ']:
                 r = sw.fresh()
                 n = follow(r, path)
                 if not n:
@@ -357,8 +389,9 @@ def accessor_steps(sw, root, quick, rnd):
                 except Exception as e:
                     sw.fail('C08', key + ':readback', f'get_line_comment after put_line_comment({t!r}) raised {e!r}')
                     continue
-                if (got or '').strip() != t.strip():
-                    sw.fail('C08', key + ':readback', f'put_line_comment({t!r}) reads back as {got!r}')
+                if got != t:
+                    kind = ':trailing_blanks' if (got or '') == t.rstrip() else ''
+                    sw.fail('C08', key + ':readback' + kind, f'put_line_comment({t!r}) reads back as {got!r}')
                 v = c01_violation(r)
                 if v:
                     sw.fail('C08', key + ':c01', f'after put_line_comment({t!r}): {v}')
